@@ -9,7 +9,6 @@ use simple_sds::bit_vector::{BitVector, Complement, Identity};
 use simple_sds::int_vector::IntVector;
 use simple_sds::ops::{Push, Rank, Select, SelectZero};
 use simple_sds::raw_vector::RawVector;
-use simple_sds::rl_vector::RLVector;
 use simple_sds::serialize::Serialize;
 use simple_sds::sparse_vector::{SparseBuilder, SparseVector};
 use simple_sds::wavelet_matrix::wm_core::WMCore;
